@@ -58,7 +58,7 @@ TARGETS = [
     ("chipfiring/CFDivisor.py", "CFDivisor", "lending_move"), ("chipfiring/CFDivisor.py", "CFDivisor", "borrowing_move"),
     ("chipfiring/CFDivisor.py", "CFDivisor", "chip_transfer"), ("chipfiring/CFDivisor.py", "CFDivisor", "set_fire"),
     ("chipfiring/CFDivisor.py", "CFDivisor", "__init__"), ("chipfiring/CFDivisor.py", "CFDivisor", "__neg__"), ("chipfiring/CFDivisor.py", "CFDivisor", "__rmul__"),
-    ("chipfiring/CFDivisor.py", "CFDivisor", "__eq__"), ("chipfiring/CFDivisor.py", "CFDivisor", "__add__"), ("chipfiring/CFDivisor.py", "CFDivisor", "__sub__"),
+    ("chipfiring/CFDivisor.py", "CFDivisor", "__eq__"), ("chipfiring/CFDivisor.py", "CFDivisor", "__add__"), ("chipfiring/CFDivisor.py", "CFDivisor", "__sub__"), ("chipfiring/CFDivisor.py", "CFDivisor", "get_total_degree"),
     ("chipfiring/CFGraph.py", "CFGraph", "is_loopless"), ("chipfiring/CFGraph.py", "CFGraph", "get_valence"), ("chipfiring/CFGraph.py", "CFGraph", "add_edge"),
     ("chipfiring/CFGraph.py", "CFGraph", "add_edges"), ("chipfiring/CFGraph.py", "CFGraph", "__init__"),
     ("chipfiring/CFiringScript.py", "CFiringScript", "__init__"), ("chipfiring/CFiringScript.py", "CFiringScript", "get_firings"), ("chipfiring/CFiringScript.py", "CFiringScript", "set_firings"),
